@@ -190,3 +190,6 @@ if "replay_jobs" in globals():
     _rj = replay_jobs
     def replay_jobs(prop, path, exes):
         return _rj(prop, path, exes) if prop in _OWNED else []
+
+XBT = [cfloat_streams("arith", 1, 1, all_bt_quick=True), cfloat_streams("order", 1, 1, all_bt_quick=True)]
+XBT_HARNESS = ["h_cfloat_u8", "h_cfloat_u16", "h_cfloat_u32"]
